@@ -13,3 +13,5 @@ CONSTANTS
   InitKinds = "any"
   WithDrain = TRUE
   PartFix = FALSE
+  SubAt = "first"
+  SyncSteps = FALSE
